@@ -228,8 +228,12 @@ fn range_value(tokens: &[Token], bp: &BlockParser) -> Option<Result<Value, Sourc
         };
     }
 
-    let start = unwrap_numeric!(numeric_value(start, bp)?);
-    let end = unwrap_numeric!(numeric_value(end, bp)?);
+    // it's only a range if both sides are numbers, check that before reporting
+    // an error in one of them
+    let start = numeric_value(start, bp)?;
+    let end = numeric_value(end, bp)?;
+    let start = unwrap_numeric!(start);
+    let end = unwrap_numeric!(end);
     Some(Ok(Value::Range { start, end }))
 }
 
